@@ -929,6 +929,31 @@ def bankSend (s : State) (frm to : Addr) (coins : Coins) : Except Err State :=
     | none => .error .funds
     | some s1 => .ok s1
 
+/-- the chain's bond denom (staking `Params.BondDenom`; the harness chain bonds `fig`). -/
+def bondDenom : Denom := "fig"
+
+/-- the staking module's bonded pool (a module account: no holds, not a party of any record). -/
+def bondedPool : Addr := "bondedpool"
+
+/-- bank `DelegateCoins` (forked SDK `x/bank/keeper/keeper.go:125`): per coin, what is available is
+the balance minus the locked coins asked for WITH the vesting-locked bypass — the hold module's
+`GetLockedCoins` (`x/hold/keeper/locked_coins.go:15`) ignores that bypass, so funds on hold are
+not available ("Funds in a vesting account can still be delegated. Funds locked by other means
+cannot."); then the coins move to the pool. -/
+def delegateCoins (s : State) (frm pool : Addr) (amt : Coins) : Option State :=
+  if anyNegative amt then none
+  else if canSpend s frm amt then some { s with bank := Ledger.move s.bank frm pool amt } else none
+
+/-- staking `MsgDelegate` by a user (base account) to the bonded validator
+(`x/staking/keeper/msg_server.go:250`): the amount must be a valid positive coin of the bond
+denom; `Keeper.Delegate` then takes it with `DelegateCoinsFromAccountToModule`. -/
+def stakeDelegate (s : State) (frm : Addr) (coin : Coin) : Except Err State :=
+  if !validCoin coin then .error .invalid
+  else if coin.1 ≠ bondDenom then .error .invalid
+  else match delegateCoins s frm bondedPool [coin] with
+    | none => .error .funds
+    | some s1 => .ok s1
+
 /-- Exchange genesis: records and the holds the hold module's genesis placed. -/
 structure Genesis where
   orders : List Order
@@ -1002,6 +1027,7 @@ inductive Op where
   | retarget (src : Addr) (ext : String) (newTarget : Addr)
   | closeMarket (m : Nat)
   | send (frm to : Addr) (coins : Coins)
+  | delegate (frm : Addr) (coin : Coin)
   deriving Repr
 
 /-- One message = one transaction: an error leaves the state unchanged. Returns the new state
@@ -1034,6 +1060,7 @@ def applyOp (s : State) (op : Op) : State × String :=
   | .retarget src ext nt => fin (updatePaymentTarget s src ext nt)
   | .closeMarket m => (closeMarket s m, "ok")
   | .send f t coins => fin (bankSend s f t coins)
+  | .delegate f coin => fin (stakeDelegate s f coin)
 
 def step (s : State) (op : Op) : State := (applyOp s op).1
 
